@@ -150,7 +150,8 @@ CLAIMS = {
              "so concatenations of balanced sub-results stay balanced. Plus three necessary conditions of the value clause that are visible in "
              "the code: an outer exponent passed to a printer method is used on every path, numbers are never rounded/re-formatted, no f-string "
              "emits an unsubstituted {placeholder}, subscripts are attached as braced groups, the number separator is decided on rendered text, "
-             "no sign is taken out of a power base without an odd-exponent test, an override of SymPy's bracket predicates only adds brackets, and no printer built from one caller's settings is kept for the next call.",
+             "no sign is taken out of a power base without an odd-exponent test, an override of SymPy's bracket predicates only adds brackets, no printer built from one caller's settings is kept for the next call, and "
+             "_print_Mul (evaluated from its source on eight products that carry a factor -1) writes the sign once and keeps a remaining sum in brackets.",
         note="Meaning preservation as a whole is NOT claimed (depends on SymPy predicates over run-time trees); SymPy's own LatexPrinter is trusted to be balanced.",
         technique="template extraction from f-strings/%-formats/literals + balance check (structural induction)", ref="DESIGN.md §2 C18"),
     "C19": dict(
@@ -158,7 +159,7 @@ CLAIMS = {
              "of the kept prefix under exec(code, {}, context), no __future__ imports, page uniqueness, placeholder discipline, resolvability "
              "of every :symbols:/:quantity_notation: role, absence of order-visible iteration over unordered collections, pairing of the "
              "evaluation disable/reset nodes and the value reset restores, the role resolvers' registration admitting every Symbol/Quantity, "
-             "no unsubstituted {placeholder} in the generator's f-strings, and the page composers print_law / print_package (evaluated for every combination of empty and "
+             "no unsubstituted {placeholder} in the generator's f-strings, every :symbols: role linked to a sub-module page that defines (not merely imports) the name, and the page composers print_law / print_package (evaluated for every combination of empty and "
              "non-empty members, functions, laws and sub-packages) putting every part on the page.",
         note="Does not decide that Sphinx/exec/printing actually succeed on every module. No replica of the generator is kept: patch_sympy_evaluate, "
              "find_title_and_description and find_members_and_functions (up to compile) are evaluated from their source on every module's real syntax tree. "
@@ -168,8 +169,8 @@ CLAIMS = {
         text="Finite table decided exhaustively: all 27 constants are folded from their source expressions over SymPy's unit tables "
              "(parsed from SymPy's source) to an SI value and a dimension vector and compared with a CODATA-2018/IAU reference table at "
              "the precision each literal states; the seven identities of the property are evaluated on the folded values; the unit system's "
-             "per-quantity tables are written only by Quantity.__init__ for self (who-may-call), the initialiser is never re-run explicitly, and quantity "
-             "names come from one process-wide counter.",
+             "per-quantity tables are written only by Quantity.__init__ for self (who-may-call), the initialiser is never re-run explicitly, quantity "
+             "names come from one process-wide counter, and no submodule of the constants package has the name of a constant (importing it would rebind the exported name).",
         note="Reference table and tolerances are hard-coded in sa/rules/c20.py (the 27 constants plus ~30 CODATA names a maintainer may add); corruption below the stated precision is invisible; a constant under an unknown name or defined through an unknown helper makes the check refuse (exit 2).",
         technique="static constant folding over unit tables read from source; who-may-call scan of the unit-system setters", ref="DESIGN.md §2 C20"),
 }
